@@ -12,9 +12,12 @@ MANIFEST = dict(
          'stone/frontend/ir_generator.py and stone/ir/data_types.py branch by branch: (a) type instantiation '
          '(_instantiate_data_type, the Void? test of _resolve_type, the __init__ parameter checks of every primitive and '
          'of List / Map): an argument list that is legal by the "Basic Types" table of docs/lang_ref.rst is never '
-         'refused (full strength), and acceptance implies legality outside four named holes of the present code, each '
-         'witnessed (List(3), non-integral list lengths, a falsy non-string pattern, a bound beyond the far end of the '
-         'width); (b) name registration (_add_data_types_and_routes_to_api, _create_*, '
+         'refused (full strength); for List, Map, Timestamp, Bytes, Boolean and Void acceptance is equivalent to '
+         'legality for every argument list (full strength: container_ok_iff_legal - the former holes `List(3)` and '
+         'non-integral list lengths are repaired in the code and pinned as refused); for the numeric types and String '
+         'acceptance implies legality outside two named holes of the present code, each witnessed (a falsy non-string '
+         'pattern `String(pattern=0)`, a bound beyond the far end of the width `Int32(min_value=2147483648)`); '
+         '(b) name registration (_add_data_types_and_routes_to_api, _create_*, _raise_symbol_already_defined, '
          '_check_canonical_name_available): acceptance is equivalent to the pairwise no-clash rule and independent of '
          'declaration / file order, under the hypothesis that the separator-less concatenation of _get_base_name is '
          'unambiguous on the input (the failure without it is witnessed: `Ab` in namespace `c` against `A` in `bc`). '
@@ -29,9 +32,10 @@ MANIFEST = dict(
     note='Trusted: Lean kernel, translator, generators and injectors (what they never produce is never checked), CPython re '
          '(whether a pattern compiles is an external parameter of the model). The iff for whole specs is observed by '
          'testing only. Not judged: booleans used as numeric arguments, null for an optional argument, min > max for '
-         'numeric bounds, indentation of the first line of a file, which of several errors is reported. Catalogue '
-         'entries without an injector are listed in the evidence (rules_unbuilt). Exceptions other than InvalidSpec '
-         'met on the way are counted here and reported by C03.',
+         'numeric bounds, indentation of the first line of a file, which of several errors is reported, Void as a List / '
+         'Map element. Several patches of one type are legal (all are applied); only a member added twice is injected. '
+         'Catalogue entries without an injector are listed in the evidence (rules_unbuilt). Exceptions other than '
+         'InvalidSpec met on the way are counted here and reported by C03.',
     technique='Lean 4 proof of component models + translator + differential correspondence; by-construction / '
               'fault-injection testing for the end-to-end statement',
     design='5 C01')
